@@ -91,6 +91,66 @@ def dictionaries(ctx, lvl, exe, have_driver):
                       dict(disagreements=dis[:3], broken_obligations=["correspondence kernel<->ideal dictionaries lvl%d" % lvl]), found=False)
 
 
+def endomorphisms(ctx, lvl, exe, have_driver):
+    """endomorphism_application_even_basis vs the Lean matrix of the element (c13.endo, the map proved to be a ring homomorphism) and the
+    affine group law on E0: images of the 2^f-torsion basis must be M·(P, Q), incl. products: M(x)M(y) = M(x·y) is also exercised on the
+    curve by applying x·y computed with the proved product formula (o0mul)"""
+    if not have_driver:
+        return
+    L = vlib.LEVELS[lvl]
+    p, fmax = L["p"], L["f"]
+    q = (p + 1) // 4
+    F = Fp2(p)
+    E0 = Mont(F, (0, 0))
+    rng = ctx.rng.fork("c13endo%d" % lvl)
+
+    def o0mul(x, y):
+        x0, x1, x2, x3 = x; y0, y1, y2, y3 = y
+        return (x0 * y0 - x1 * y1 - x1 * y2 - q * x2 * y2 - q * x3 * y3, x0 * y1 + x1 * y0 + x1 * y3 + q * x2 * y3 - q * x3 * y2,
+                x0 * y2 + x2 * y0 - x1 * y3 + x3 * y1 + x3 * y2, x0 * y3 + x3 * y0 + x1 * y2 - x2 * y1 + x3 * y3)
+    cases = []
+    fs = [fmax, fmax - 1, 3 + rng.below(fmax - 4)] if ctx.quick else [fmax, fmax - 1, 2, 3, 64, 65] + [3 + rng.below(fmax - 4) for _ in range(4)]
+    for f in fs:
+        for _ in range(2):
+            x = tuple(rng.below(1 << 70) - (1 << 69) for _ in range(4)); y = tuple(rng.below(1 << 40) - (1 << 39) for _ in range(4))
+            for c in (x, y, o0mul(x, y), (0, 1, 0, 0), (0, 0, 1, 0), (0, 0, 0, 1)):
+                g = 0
+                from math import gcd
+                for v in c: g = gcd(g, abs(v))
+                if g != 1 and c not in ((0, 1, 0, 0), (0, 0, 1, 0), (0, 0, 0, 1)):
+                    c = tuple(v // g for v in c) if g else c     # the C routine applies the primitive part (content is dropped)
+                if any(c):
+                    cases.append((f, c))
+    mout = ctx.driver(["c13.endo %x %x %s %s %s %s" % ((lvl, f) + tuple(shex(v) for v in c)) for f, c in cases])
+    ops = ["endo %x %s %s %s %s 2" % ((f,) + tuple(shex(v) for v in (2 * c[0] + c[3], 2 * c[1] + c[2], c[2], c[3]))) for f, c in cases]
+    rc, out, err = vlib.run_c([exe], ops)
+    dis = []
+    for i, (f, c) in enumerate(cases):
+        ctx.case("L%d:endo:f=%d:%d" % (lvl, f, i))
+        if i >= len(out):
+            ctx.violation("c13:L%d:endomorphism_application:crash" % lvl, "endomorphism_application_even_basis crashed", dict(level=lvl, op=ops[i], stderr=err[-600:])); return
+        img, base = out[i].split(" | ")
+        iw, bw = img.split(), base.split()
+        P0, Q0, D0 = pt(bw[0:2]), pt(bw[2:4]), pt(bw[4:6])
+        jP, jQ = E0.lift(P0), E0.lift(Q0)
+        d = E0.sub(jP, jQ)
+        if d is None or d[0] != D0:
+            jQ = E0.neg(jQ)
+        jPQ = E0.add(jP, jQ)
+        N = 1 << f
+        m = [sint(v) % N for v in mout[i].split()]
+        X = lambda u, v: (lambda Rr: None if Rr is None else Rr[0])(E0.lin2(u % N, jP, v % N, jQ, jPQ))
+        exp = (X(m[0], m[2]), X(m[1], m[3]), X(m[0] - m[1], m[2] - m[3]))
+        got = (pt(iw[0:2]), pt(iw[2:4]), pt(iw[4:6]))
+        if got != exp:
+            dis.append(dict(op=ops[i], model=mout[i][:120], which=[k for k in range(3) if got[k] != exp[k]]))
+    ctx.evaluations += len(cases)
+    ctx.obligation("correspondence endomorphism_application_even_basis = matrix of the element (lvl%d, %d elements incl. products)" % (lvl, len(cases)), not dis, json.dumps(dis[:2])[:500])
+    if dis:
+        ctx.violation("c13:L%d:endomorphism_application-not-the-matrix" % lvl, "endomorphism_application_even_basis does not move the 2^f-torsion basis of E0 by the matrix of the element (affine group law oracle)",
+                      dict(level=lvl, disagreements=dis[:3], how="drv_id2iso level %d: feed the op; Lean driver c13.endo for the matrix" % lvl))
+
+
 def even_isogenies(ctx, lvl, exe):
     """id2iso_ideal_to_isogeny_even_dlogs on ideals of norm 2^k for EVERY k (level 1) / stratified incl. all k in [56, 80] (levels 3, 5, quick):
     length = k, returned dlogs = 2^(f-k)·w with w an odd multiple of the kernel vector, kernel point of exact order 2^k on E0"""
@@ -264,6 +324,7 @@ def run(ctx):
         nb = len(ctx.violations)
         dictionaries(ctx, lvl, exe, have_driver)
         even_isogenies(ctx, lvl, exe)
+        endomorphisms(ctx, lvl, exe, have_driver)
         isogenies(ctx, lvl, exe, plan[lvl][0 if ctx.quick else 1])
         ctx.obligation("oracle: dictionaries / find_uv / image bases at level %d" % lvl, len(ctx.violations) == nb, "")
     return dict(level="proof", rule="one case = one kernel vector (level, f, parity class) through both dictionaries, or one ideal (norm size, original / equivalent) through find_uv and the evaluation")
